@@ -16,6 +16,12 @@ Sub-checks
             leaves no file; plus in-process determinism with a fresh cleaner.  Allow-lists are derived from
             the content (every tagged line / one tag / a slice of a line / a word / nothing) with small
             per-key budgets, so that they run out at the bottom, in the middle, exactly at the top or never.
+            Lines may hold characters that other conventions of cutting text into lines take for a line end (VT,
+            FF, FS, GS, RS, NEL, U+2028, U+2029 - what str.splitlines() cuts at) at all four entry points, with
+            patterns / allow-list keys sliced from the content (so that they are found on one side of such a
+            character only); files with and without a terminator behind the last line, written and read back as
+            bytes.  clean_file - the entry point at which the cleaner itself cuts the text into lines - is drawn
+            twice as often as before.
   overlap   (hypothesis, in-process)  2-3 cleanings - each with its own content, allow-list, no_obfuscate and
             no_redact - go through ONE Cleaner object (what a collection does: one cleaner per run, specs
             written from a thread pool when obfuscation is off).  Every cleaning runs in its own real thread;
@@ -50,6 +56,10 @@ RULE = ("cases built so that obfuscators compete for the same text: keywords tha
         "on; plus blank lines, plain exclusion patterns (often matching every tagged line), allow-lists and the "
         "four entry points; allow-lists derived from the content (key = every tagged line / one tag / a slice / a "
         "word / nothing, budgets 1-3 or 10000: used up at the bottom, in the middle, exactly at the top, never). "
+        "order: in 1 of 4 cases (clean_file: 1 of 2) lines hold a character that str.splitlines() - not the line "
+        "structure of the content - treats as a line end (VT FF FS GS RS NEL U+2028 U+2029) between two items, "
+        "behind the tag's blank, in front of a last word or at the very end of the line, next to lines without "
+        "one; clean_file also on files without a final newline. "
         "overlap: 2-3 cleanings with their own content, allow-list, no_obfuscate, no_redact through one Cleaner "
         "object, each in a real thread, interleaved exactly as a generated schedule says (yield point = a line "
         "is read / a parser is applied); non-trivial (overlap): the cleanings differ in what is handed over per "
@@ -64,6 +74,11 @@ ASSUMPTIONS = [
     "the child asserts both",
     "a line is blank iff it is the empty string",
     "plain exclusion patterns / tags as in C08; SimpleNamespace stands in for InsightsConfig",
+    "a line of the content = an item of the list handed to clean_content / DatasourceProvider, a '\\n'-delimited "
+    "line of the file handed to clean_file (the unchanged clean_file reads the lines with the file iterator); VT, "
+    "FF, FS, GS, RS, NEL, U+2028, U+2029 inside a line do not end it.  Files are written and read back as UTF-8 "
+    "bytes; clean_file decodes with the locale's encoding, so non-ASCII file cases are skipped (label) unless the "
+    "process runs under a UTF-8 locale",
     "overlap: one Cleaner serves every cleaning of a collection (insights.collect: broker['cleaner']; specs are "
     "written from the thread pool of serde.marshal / the parallel run strategy when obfuscation is off), so a "
     "cleaning's output must be what a fresh cleaner gives for its content and configuration whatever other "
@@ -81,9 +96,20 @@ EXCLUDED = [
     "specs exempt from every cleaning step are generated only in the in-process 'order' sub-check (nothing "
     "competes there, so the hash-seed sub-check has nothing to observe)",
     "width-preserving mode (covered in C08 on netstat-shaped lines only)",
+    "a carriage return inside a line (clean_file reads in text mode with universal newlines: a lone '\\r' does end "
+    "a line of a file on the unchanged tree; what a line is then is not stated)",
+    "line-break look-alikes in the hashseed and overlap sub-checks (nothing hash-seed or object-state dependent "
+    "is expected of them; c08.run_entry writes files in the locale's encoding)",
 ]
 
 ALL_ON = {"obfuscate": True, "hostname": True, "mac": True, "ipv6": True}
+
+# Characters that are NOT line terminators of the content handed to the cleaner - an item of the list, a line of
+# the file ("\n" ends a line there) - but are taken for one by other conventions of cutting text into lines
+# (str.splitlines(), some editors, JSON/JavaScript): VT, FF, FS, GS, RS, NEL, LINE SEPARATOR, PARAGRAPH SEPARATOR.
+# Form feeds sit in paginated reports and RFC-style text, U+2028 in JSON logs.  "\r" is not among them: a text
+# file is read with universal newlines, so a lone "\r" does end a line of a file on the unchanged tree.
+LINE_BREAK_LOOKALIKES = ["\x0b", "\x0c", "\x1c", "\x1d", "\x1e", u"\x85", u"\u2028", u"\u2029"]
 
 
 # ---- executed in the child interpreters (and in-process) -------------------------------------------
@@ -169,7 +195,7 @@ def check_hashseed(wrapped):
 def _key(case):
     return {"lines": tg.render(case["lines"]), "kw": case.get("keywords"), "fqdn": case["fqdn"], "obf": case["obf"],
             "no_obf": case.get("no_obfuscate"), "entry": case["entry"], "pat": case.get("patterns"),
-            "al": case.get("allowlist")}
+            "al": case.get("allowlist"), "nl": case.get("final_newline", True)}
 
 
 def _collect(strategy, n, seed):
@@ -287,6 +313,10 @@ def check_order(case):
     labels = set(["entry=" + entry])
     details = dict(input=lines, entry=entry, patterns=case.get("patterns"), allowlist=case.get("allowlist"))
     leftover = None
+    if entry == "file" and not _locale_is_utf8() and any(ord(ch) > 127 for l in lines for ch in l):
+        # clean_file opens the file in text mode with the locale's encoding: what it does with UTF-8 bytes
+        # under another locale is outside the statement
+        return {"nontrivial": False, "labels": ["skipped:non-ascii-file-under-a-non-utf8-locale"]}
     if entry in ("list", "str"):
         out = c08.run_entry(case, c08.build_cleaner(case), lines)
         again = c08.run_entry(case, c08.build_cleaner(case), lines)
@@ -365,6 +395,11 @@ def check_order(case):
                 labels.add("allowlist-used-up-below-the-top")
                 if any(l == "" for l in lines[:at]):
                     labels.add("allowlist-used-up-below-a-blank-line")
+    if any(ch in l for l in lines for ch in LINE_BREAK_LOOKALIKES):
+        labels.add("linebreak-lookalike-inside-a-line")
+        labels.update(_lookalike_labels(case, lines))
+    if not case.get("final_newline", True):
+        labels.add("file-without-final-newline")
     n_in = len(lines)
     dropped = n_in - len(out)
     if dropped:
@@ -400,6 +435,37 @@ def _allow_used_up_at(case, lines):
     return 0 if not left else None
 
 
+def _locale_is_utf8():
+    import codecs
+    import locale
+    try:
+        return codecs.lookup(locale.getpreferredencoding(False)).name == "utf-8"
+    except LookupError:
+        return False
+
+
+def _lookalike_labels(case, lines):
+    """coverage labels only (never part of the oracle): is there a line which a plain pattern / the allow-list
+    would treat differently if it were cut at a line-break look-alike - found in one piece only"""
+    out = set()
+    pat = case.get("patterns")
+    pats = pat["items"] if pat and pat.get("mode", "plain") == "plain" and not case.get("no_redact") else []
+    keys = sorted(case["allowlist"]) if case.get("allowlist") is not None else None
+    for idx, l in enumerate(lines):
+        pieces = [p for p in l.splitlines() if p]
+        if len(pieces) < 2:
+            continue
+        where = "last-line" if idx == len(lines) - 1 else "line-above-the-last"
+        hit = [any(p in piece for p in pats) for piece in pieces]
+        if any(hit) and not all(hit):
+            out.add("lookalike:pattern-in-one-piece-only:" + where)
+        if keys is not None:
+            hit = [any(k in piece for k in keys) for piece in pieces]
+            if any(hit) and not all(hit):
+                out.add("lookalike:allowlist-key-in-one-piece-only:" + where)
+    return out
+
+
 def _run_on_disk(case, lines):
     """file / write entry -> (output lines, (exists, text, raised))"""
     no_obf = list(case.get("no_obfuscate") or [])
@@ -411,8 +477,8 @@ def _run_on_disk(case, lines):
         raised = False
         if case["entry"] == "file":
             path = os.path.join(d, "spec.txt")
-            with open(path, "w") as f:
-                f.write("\n".join(lines) + "\n")
+            with open(path, "wb") as f:
+                f.write(("\n".join(lines) + ("\n" if case.get("final_newline", True) else "")).encode("utf-8"))
             cleaner.clean_file(path, no_obfuscate=no_obf, no_redact=no_red,
                                allowlist=dict(allow) if allow is not None else None)
         else:
@@ -429,8 +495,9 @@ def _run_on_disk(case, lines):
         exists = os.path.exists(path)
         text = ""
         if exists:
-            with open(path) as f:
-                text = f.read()
+            # bytes, cut at "\n" only (text mode would translate "\r" and depends on the locale)
+            with open(path, "rb") as f:
+                text = f.read().decode("utf-8", "backslashreplace")
         if not exists:
             out = []
         elif case["entry"] == "file":
@@ -748,8 +815,18 @@ def _compete_item(draw, w, kws):
     return [["fill", draw(st.sampled_from(tg.FILLER_WORDS))]], None
 
 
+def _break_sep(draw, breaks):
+    ch = draw(st.sampled_from(breaks))
+    return draw(st.sampled_from([ch, ch, " " + ch, ch + " ", " " + ch + " ", ch + draw(st.sampled_from(breaks))]))
+
+
 @st.composite
-def _compete_lines(draw, w, kws, blanks, max_lines, min_lines=1, blank_one_in=4):
+def _compete_lines(draw, w, kws, blanks, max_lines, min_lines=1, blank_one_in=4, breaks=None):
+    """breaks: characters (LINE_BREAK_LOOKALIKES) that may stand INSIDE a line - as the separator between two
+    items, directly behind the tag's blank (a line that "starts with a form feed"), at the very end of the line
+    or in front of a last word.  The line stays one line of the content; lines without such a character are
+    generated next to them.  No draw is made for it when `breaks` is empty (the other users of this strategy
+    keep their random stream)."""
     n = draw(st.integers(min_lines, max_lines))
     lines = []
     labels = set()
@@ -765,10 +842,18 @@ def _compete_lines(draw, w, kws, blanks, max_lines, min_lines=1, blank_one_in=4)
                 labels.add(lab)
             # the tag is always followed by a blank: the IPv6 expression swallows the character in
             # front of "::" (and a hex run before it), which must never be part of the tag
-            parts.append(["fill", draw(st.sampled_from(_SEPS)) if parts else " "])
+            if not parts:
+                parts.append(["fill", " " + (_break_sep(draw, breaks) if breaks and draw(tg.rarely(6)) else "")])
+            elif breaks and draw(tg.rarely(2)):
+                parts.append(["fill", _break_sep(draw, breaks)])
+            else:
+                parts.append(["fill", draw(st.sampled_from(_SEPS))])
             parts.extend(item)
         if draw(tg.rarely(3)):
-            parts.append(["fill", draw(st.sampled_from(_SEPS)) + draw(st.sampled_from(tg.FILLER_WORDS))])
+            sep = _break_sep(draw, breaks) if breaks and draw(tg.rarely(2)) else draw(st.sampled_from(_SEPS))
+            parts.append(["fill", sep + draw(st.sampled_from(tg.FILLER_WORDS))])
+        if breaks and draw(tg.rarely(6)):
+            parts.append(["fill", draw(st.sampled_from(breaks))])
         lines.append({"tag": start + i, "tagpos": "start", "parts": parts})
     return lines, sorted(labels)
 
@@ -813,15 +898,21 @@ def _compete_case(draw, tier, for_order=False):
                            unique_by=lambda x: x[1]))
     kws = [k for _, k in chosen]
     compete = sorted(set(why for why, _ in chosen))
-    entry = draw(st.sampled_from(["list", "list", "list", "write", "str", "file"]))
+    # clean_file is the one entry point at which the code under test itself cuts a text into lines: the
+    # in-process sub-check draws it twice as often
+    entry = draw(st.sampled_from(["list", "list", "list", "write", "str", "file"] + (["file"] if for_order else [])))
     blanks = entry in ("list", "write") and (for_order or draw(tg.rarely(5)))
     want_allow = entry != "write" and (draw(tg.die(5)) < 2 if for_order else draw(tg.rarely(8)))
+    # the in-process sub-check also meets lines that hold a character other line-cutting conventions take for a
+    # line end (at every entry point: an item of the list / a line of the file stays ONE line of the content)
+    breaks = LINE_BREAK_LOOKALIKES if for_order and draw(tg.die(4)) < (2 if entry == "file" else 1) else None
     if want_allow and for_order:
         # filtered specs: at least two lines and more blank ones, so that the allow-list can run out with
         # something - blank or not - still above
-        lines, labs = draw(_compete_lines(w, kws, blanks, 6 if tier == "quick" else 9, min_lines=2, blank_one_in=3))
+        lines, labs = draw(_compete_lines(w, kws, blanks, 6 if tier == "quick" else 9, min_lines=2, blank_one_in=3,
+                                          breaks=breaks))
     else:
-        lines, labs = draw(_compete_lines(w, kws, blanks, 5 if tier == "quick" else 8))
+        lines, labs = draw(_compete_lines(w, kws, blanks, 5 if tier == "quick" else 8, breaks=breaks))
     rendered = tg.render(lines)
     obf = dict(ALL_ON)
     if draw(tg.rarely(4)):
@@ -866,7 +957,9 @@ def _compete_case(draw, tier, for_order=False):
     elif no_red and set(no_obf) == set(c08.OBF_NAMES):
         no_red = False
     return {"fqdn": w["fqdn"], "obf": obf, "keywords": kws, "patterns": patterns, "no_obfuscate": no_obf,
-            "no_redact": no_red, "allowlist": allow, "entry": entry, "width": False, "final_newline": True,
+            "no_redact": no_red, "allowlist": allow, "entry": entry, "width": False,
+            # a file whose last line has no terminator (only drawn for the in-process sub-check's file entry)
+            "final_newline": not (for_order and entry == "file" and draw(tg.rarely(4))),
             "lines": lines, "compete": sorted(set(compete + labs))}
 
 
@@ -1043,6 +1136,12 @@ def selftest():
     assert _allow_used_up_at({"allowlist": {"#": 1}}, ["", "#1# a", "#2# b"]) == 2
     assert _allow_used_up_at({"allowlist": {"#": 2}}, ["#1# a", "", "#2# b"]) == 0
     assert _allow_used_up_at({"allowlist": {"#": 3}}, ["#1# a", "#2# b"]) is None
+    assert all(len(("a" + ch + "b").splitlines()) == 2 and ch not in "\r\n" for ch in LINE_BREAK_LOOKALIKES)
+    assert _lookalike_labels({"patterns": {"mode": "plain", "items": ["up"]}, "allowlist": {"#": 1}},
+                             ["#1# link\x0cup", "#2# x"]) == set(
+        ["lookalike:pattern-in-one-piece-only:line-above-the-last",
+         "lookalike:allowlist-key-in-one-piece-only:line-above-the-last"])
+    assert _lookalike_labels({"patterns": {"mode": "plain", "items": ["k\x0cu"]}, "allowlist": None}, ["#1# link\x0cup"]) == set()
     # the child protocol itself (no code under test involved)
     res = hashseed.run_batch("vp.props.c10:_echo", [{"x": 1}, {"x": u"\u00e9"}], [0, 5])
     assert res[0] == res[5] == [{"x": 1, "echo": True}, {"x": u"\u00e9", "echo": True}], res
